@@ -1,9 +1,58 @@
 (* C28/Properties.v — property C28: the Wasm heap allocator never hands out overlapping memory.
-   Statements only; proofs are in the Proofs*.v files. *)
+   Statements only; proofs are in the Proofs*.v files.
+
+   Model.v mirrors lib/runtime/allocator/freeing_bump.go (as repaired by the fix commits
+   "allocator rejects deallocation of unaligned pointers" and "allocator bumper no longer wraps
+   around at 4GiB") over a byte-addressed linear memory with a size in 64 KiB pages.
+   [run fixed c init ops] executes a list of operations — Allocate, Deallocate of arbitrary
+   pointers, guest stores/loads (performed only inside the requested size of live allocations),
+   memory.grow, swapping the memory object — and returns the trace of results; [check c trace] is
+   the property as an executable predicate over such a trace; the driver evaluates the same
+   [check] on the traces of the Go implementation. *)
 From Coq Require Import NArith List Bool.
-From C28 Require Import Model ProofsRefute.
+From C28 Require Import Model ProofsRefute ProofsRun.
 Import ListNotations.
 Local Open Scope N_scope.
+
+(* For every heap base, every initial memory that is zero from the (aligned) heap base on, every
+   page maximum up to 65536 and every sequence of operations, the trace passes the checker:
+   each returned pointer is 8-byte aligned, lies above the heap base, its whole rounded-up block
+   (next power of two, at least 8) lies inside the current memory and is disjoint (headers
+   included) from every live allocation; bytes stored in a live allocation are read back
+   unchanged whatever allocations and frees happen in between; Deallocate of a pointer that is
+   not live fails (unless the 8 bytes before it lie below the heap base or contain bytes the
+   guest itself stored: a forged header, after which nothing is demanded); after any failed
+   call every later call fails (the allocator is poisoned); requests above 32 MiB fail; the
+   memory never exceeds 65536 pages (4 GiB). *)
+Theorem C28_spec : forall c init ops,
+  c_pages c <= c_max c -> c_max c <= max_wasm_pages ->
+  (forall a, align_up (c_hb c) <= a -> init a = 0) ->
+  check c (run fixed c init ops) = true.
+Proof. exact check_run. Qed.
+Print Assumptions C28_spec.
+
+(* requests above 32 MiB fail; an error poisons; a poisoned allocator fails for ever *)
+Theorem C28_max_request_and_poisoning : forall s m x,
+     (max_alloc < x -> exists e, fst (fst (alloc fixed s m x)) = RErr e)
+  /\ (forall e, fst (fst (alloc fixed s m x)) = RErr e -> s_poisoned (snd (fst (alloc fixed s m x))) = true)
+  /\ (forall e, fst (fst (dealloc fixed s m x)) = RErr e -> s_poisoned (snd (fst (dealloc fixed s m x))) = true)
+  /\ (s_poisoned s = true -> alloc fixed s m x = (RErr EPoisoned, s, m) /\ dealloc fixed s m x = (RErr EPoisoned, s, m)).
+Proof.
+  intros s m x. split; [apply alloc_too_large|]. split; [apply error_poisons_alloc|].
+  split; [apply error_poisons_dealloc|apply poisoned_forever].
+Qed.
+Print Assumptions C28_max_request_and_poisoning.
+
+(* non-vacuity: blocks of several orders, free-list reuse in LIFO order, data read back across
+   other allocations and frees, a double free, poisoning *)
+Example C28_nonvacuous :
+  let c := mkCfg 1 1 65536 in
+  let ops := [OAlloc 5; OAlloc 9; OWrite 16 170; OAlloc 70000; OFree 32; OAlloc 16; ORead 16; OFree 16; OFree 16; OAlloc 1] in
+  map (fun x => (o_res (snd x), o_pages (snd x))) (run fixed c zero_mem ops)
+  = [(RPtr 16, 1); (RPtr 32, 1); (ROk, 1); (RPtr 56, 3); (ROk, 3); (RPtr 32, 3); (RVal 170, 3); (ROk, 3);
+     (RErr EEmptyHdr, 3); (RErr EPoisoned, 3)]
+  /\ check c (run fixed c zero_mem ops) = true.
+Proof. split; vm_compute; reflexivity. Qed.
 
 (* the pinned tree before the fixes: an unaligned invalid free was accepted and led to an
    unaligned pointer inside a live block *)
